@@ -68,13 +68,13 @@ Proof. intros r r' e H. unfold legal2. rewrite H. reflexivity. Qed.
 Lemma hop_result_legal2 : forall o row,
   let '(row', effs) := hop_result o row in legal2 row row' effs = true.
 Proof.
-  intros [k ph fault | k p1 p2 sched] row; simpl.
+  intros [k ph fault | k p1 p2 f1 f2 sched] row; simpl.
   - pose proof (single_ok_all row ph fault) as H. unfold single_ok in H.
     destruct (deliver1 row ph fault) as [t sh].
     apply legal_legal2.
     repeat (apply andb_prop in H; destruct H as [H ?]). assumption.
-  - pose proof (race_ok_all row p1 p2 sched) as H. unfold race_ok in H.
-    repeat (apply andb_prop in H; destruct H as [H ?]). assumption.
+  - pose proof (race_ok_all row p1 p2 f1 f2 sched) as H. unfold race_ok, race_ok_r in H.
+    repeat rewrite andb_true_iff in H. destruct H as (((((_ & _) & _) & L) & _) & _). exact L.
 Qed.
 
 Lemma ostatus_eqb_eq : forall a b, ostatus_eqb a b = true -> a = b.
@@ -249,25 +249,25 @@ Proof.
 Qed.
 
 (* two racing deliveries of one branch, every schedule of their statements *)
-Theorem race_safe : forall row p1 p2 sched,
-  let r := race row p1 p2 sched in
+Theorem race_safe : forall row p1 p2 f1 f2 sched,
+  let r := race row p1 p2 f1 f2 sched in
   done (r_t0 r) = true /\ done (r_t1 r) = true /\ s_owner (r_sh r) = None /\
   legal2 row (s_row (r_sh r)) (s_effs (r_sh r)) = true /\
   cnt_of (s_row (r_sh r)) = add_effs (cnt_of row) (s_effs (r_sh r)) /\
   (t_err (r_t0 r) <> ENone -> t_err (r_t1 r) <> ENone -> s_row (r_sh r) = row /\ s_effs (r_sh r) = []).
 Proof.
-  intros row p1 p2 sched. cbv zeta.
-  pose proof (race_ok_all row p1 p2 sched) as H. unfold race_ok, thread_ok in H.
+  intros row p1 p2 f1 f2 sched. cbv zeta.
+  pose proof (race_ok_all row p1 p2 f1 f2 sched) as H. unfold race_ok, race_ok_r, thread_ok in H.
   repeat rewrite andb_true_iff in H.
   destruct H as ((((((D0 & _) & (D1 & _)) & O) & L) & _) & F).
   repeat split; try assumption.
-  - destruct (s_owner (r_sh (race row p1 p2 sched))); [discriminate|reflexivity].
+  - destruct (s_owner (r_sh (race row p1 p2 f1 f2 sched))); [discriminate|reflexivity].
   - apply legal2_cnt. assumption.
-  - destruct (t_err (r_t0 (race row p1 p2 sched))); try contradiction;
-    destruct (t_err (r_t1 (race row p1 p2 sched))); try contradiction; simpl in F;
+  - destruct (t_err (r_t0 (race row p1 p2 f1 f2 sched))); try contradiction;
+    destruct (t_err (r_t1 (race row p1 p2 f1 f2 sched))); try contradiction; simpl in F;
     apply andb_prop in F; destruct F as [A _]; apply ostatus_eqb_eq in A; assumption.
-  - destruct (t_err (r_t0 (race row p1 p2 sched))); try contradiction;
-    destruct (t_err (r_t1 (race row p1 p2 sched))); try contradiction; simpl in F;
+  - destruct (t_err (r_t0 (race row p1 p2 f1 f2 sched))); try contradiction;
+    destruct (t_err (r_t1 (race row p1 p2 f1 f2 sched))); try contradiction; simpl in F;
     apply andb_prop in F; destruct F as [_ B];
-    destruct (s_effs (r_sh (race row p1 p2 sched))); try discriminate; reflexivity.
+    destruct (s_effs (r_sh (race row p1 p2 f1 f2 sched))); try discriminate; reflexivity.
 Qed.
